@@ -164,6 +164,24 @@ def respondVB (prov : Addr) (code : Nat) (out : OutKind) : Bool :=
   prov ≠ "" && (code = 200 || code = 400 || code = 500) &&
   (if code = 200 then out ≠ .absent else out = .absent)
 
+/-- settlement of an accepted response: malformed output → slash and full refund (a failure of
+    either panics, as in `AddResponse`); otherwise tax and earnings -/
+def settle (s : State) (r : ReqId) (svc : SvcName) (cons : Addr) (q : Req) (prov : Addr) (out : OutKind) :
+    Except Res (State × List Effect) :=
+  if out = .malformed then
+    match slash s r svc q.prov with
+    | .bankErr => .error (.panic "slash failed")
+    | .overflow => .error (.panic "Int overflow")
+    | .done s1 e1 =>
+      match bankSend s1.bank s1.cfg.escrow cons q.fee with
+      | none => .error (.panic "refund failed")
+      | some bank' => .ok ({ s1 with bank := bank' },
+          e1 ++ (if q.fee = 0 then [] else [.transfer s1.cfg.escrow cons q.fee]))
+  else
+    match addEarned s prov q.fee with
+    | none => .error (.err .insufficientFunds)
+    | some r => .ok r
+
 def respond (s : State) (r : ReqId) (prov : Addr) (code : Nat) (out : OutKind) : Out :=
   match Map.get s.reqs r with
   | none => fail s .unknownRequest
@@ -174,35 +192,19 @@ def respond (s : State) (r : ReqId) (prov : Addr) (code : Nat) (out : OutKind) :
       if prov ≠ q.prov then fail s .invalidResponse
       else if r ∉ s.activeI then fail s .invalidResponse
       else
-        let settled : Except Res (State × List Effect) :=
-          if out = .malformed then
-            match slash s r x0.svc q.prov with
-            | .bankErr => .error (.panic "slash failed")
-            | .overflow => .error (.panic "Int overflow")
-            | .done s1 e1 =>
-              match bankSend s1.bank s1.cfg.escrow x0.cons q.fee with
-              | none => .error (.panic "refund failed")
-              | some bank' => .ok ({ s1 with bank := bank' },
-                  e1 ++ (if q.fee = 0 then [] else [.transfer s1.cfg.escrow x0.cons q.fee]))
-          else
-            match addEarned s prov q.fee with
-            | none => .error (.err .insufficientFunds)
-            | some r => .ok r
-        match settled with
-        | .error r => (s, r, [])
+        match settle s r x0.svc x0.cons q prov out with
+        | .error res => (s, res, [])
         | .ok (s1, e1) =>
           let s2 := { s1 with resps := Map.set s1.resps r { prov := prov, cons := x0.cons, code := code, out := out } }
           let s3 := delActive s2 x0.svc prov q.expH r
           let vk := (x0.cons, x0.svc, prov)
           let s4 := { s3 with volume := Map.set s3.volume vk ((Map.get s3.volume vk).getD 0 + 1) }
-          match Map.get s4.ctxs r.ctx with
-          | none => (s4, .ok, e1)
-          | some x =>
-            let x1 := { x with respN := x.respN + 1 }
-            if x1.respN = x1.reqN then
-              let (x2, e2) := completeBatch s4 r.ctx x1
-              (setCtx s4 r.ctx x2, .ok, e1 ++ e2)
-            else (setCtx s4 r.ctx x1, .ok, e1)
+          -- (the keeper re-reads the context here; nothing above writes contexts)
+          let x1 := { x0 with respN := x0.respN + 1 }
+          if x1.respN = x1.reqN then
+            let (x2, e2) := completeBatch s4 r.ctx x1
+            (setCtx s4 r.ctx x2, .ok, e1 ++ e2)
+          else (setCtx s4 r.ctx x1, .ok, e1)
 
 /-! ### lifecycle (`CheckAuthority`, `Pause/Start/Kill/UpdateRequestContext`) -/
 def ctxMsgVB (cons : Addr) : Bool := cons ≠ ""
